@@ -3,6 +3,7 @@ package props
 import (
 	"strings"
 	"verif/checker/internal/core"
+	"verif/checker/internal/engb"
 	"verif/checker/internal/fam"
 	"verif/checker/internal/gen"
 )
@@ -26,19 +27,26 @@ func C04(c *core.Ctx) {
 		"raw != nil, a presence test on the raw map for exactly the raw name of each required, non-defaulted property — and for no other key (A-NOEXTRA). " +
 		"allOf families (2..4 branches, overlapping properties, a constraint-only branch adding `required`, a referenced branch, a base that also requires a sibling's property) are included on the modelled mergo merge. " +
 		"A-TYPEFORM: the decoder hands the generator the type list exactly as written (two-element lists in both orders), so the nullable members of the families stand for the documents that spell them."
-	rules := ruleSet("A-REQ", "A-NOEXTRA", "A-TAG")
+	rules := ruleSet("A-REQ", "A-NOEXTRA", "A-TAG", "A-MAP")
 	cfg := gen.DefaultConfig()
 	var ms []member
 	ms = append(ms, requiredMembers(c.Tier, cfg)...)
 	ms = append(ms, anyOfMembers(c.Tier, cfg)...)
 	ms = append(ms, addPropsMembers(c.Tier, cfg)...)
 	ms = append(ms, allOfMembers(cfg)...)
+	ms = append(ms, mapRefMembers(cfg)...)
 	for _, mb := range ms {
+		mb := mb
 		runMember(c, mb, rules, 256, func(w *fam.World, fm *fam.FileModel) []fam.Issue {
 			var keep []fam.Issue
 			for _, is := range checkRoot(w, fm) {
 				if is.Rule == "A-NOEXTRA" && !strings.Contains(is.Construct, "presence") {
 					continue // value-level branches belong to the keyword's own property
+				}
+				// the type mapping is C02/C03's business, except where it decides whether a presence check is REACHED at all: a map
+				// whose values are objects must have the value object's own type as its element type
+				if is.Rule == "A-MAP" && !strings.HasPrefix(mb.name, "map with values given by reference") {
+					continue
 				}
 				keep = append(keep, is)
 			}
@@ -117,6 +125,8 @@ func C03(c *core.Ctx) {
 		})
 	}
 	ruleMultiSel(c, ruleSet("A-MAP", "A-REJ", "A-NOEXTRA", "A-REQ"), 2, "allOf branch in two files", "differing only in the target of a nested reference")
+	// the composition members rest on the mergo model; its assumption about module code (the TypeList transformer is a no-op) is checked
+	emit(c, engb.New(c.Prog).MergoModelAssumptions())
 	// which declaration a same-named schema is bound to decides which constraints validate it (A-DEDUP)
 	ruleDedup(c)
 	c.Floor("families", c.Counts["members"], 150, "family members")
